@@ -406,6 +406,13 @@ func TestVerifC02(t *testing.T) {
 				script = []int{0, 0, 0, 0, 0, 1, 1, 3, 1, 1, 3, 1, 1, 0, 1, 0, 2, 2, 0, 0, 0, 0, 1, 0, 3, 1, 0, 3, 3, 0, 2, 0, 0}
 				stats["corpus/re-elected-leader-stale-offsets"]++
 			}
+			if k == 2 {
+				// third corpus history: the real replica follows b and holds all five messages, c holds three; c is elected
+				// while the real replica keeps running as a follower: it must cut its log back to what c has before it
+				// fetches c's new messages
+				script = []int{2, 0, 0, 0, 0, 0, 0, 1, 0, 3, 1, 0, 3, 3, 0, 1, 1, 2, 2, 1, 0, 0, 1, 0, 3}
+				stats["corpus/running-follower-ahead-of-new-leader"]++
+			}
 			pop := func(def func() int) int {
 				if len(script) > 0 {
 					x := script[0]
